@@ -6,8 +6,11 @@ package main
 // C11 — depth limit: fail <=> cyclic or h_max >= N, independent of order.
 
 import (
+	"bufio"
 	"fmt"
 	"math/big"
+	"os"
+	"path/filepath"
 	"runtime/debug"
 	"sort"
 	"strings"
@@ -867,7 +870,61 @@ func c11EnumSpace(maxN int) []c11EnumSpec {
 
 func init() {
 	vRegister("C11", "c11.random", checkC11)
+	vRegister("C11", "c11.bigbook", checkC11Big)
 	vRegister("C11", "c11.enum", checkC11)
+}
+
+// ---------------------------------------------------------------------------
+// a recipe book whose last recipes lie behind more than 128 MiB (256 MiB) of comment lines: a cycle there is still a cycle
+
+type c11BigCase struct {
+	MiB int `json:"mib"`
+	Cmd int `json:"cmd"`
+}
+
+var c11BigCmds = [][]string{{"csv", "database-resolved"}, {"reg", "--no-color"}, {"report", "element-total", "x"}}
+
+func checkC11Big(c c11BigCase, ctx *vCtx) *vFailure {
+	p := filepath.Join(vScratchDir(), "c11-big-book.yaml")
+	f, err := os.Create(p)
+	if err != nil {
+		vFault("create: %v", err)
+	}
+	w := bufio.NewWriterSize(f, 1<<20)
+	fmt.Fprint(w, "first:\n  x: 1\n")
+	line := "#" + strings.Repeat("c", 59998) + "\n"
+	for n := 0; n < c.MiB<<20; n += len(line) {
+		w.WriteString(line)
+	}
+	fmt.Fprint(w, "ring~a:\n  ring~b: 1\nring~b:\n  ring~a: 2\n")
+	if err := w.Flush(); err != nil {
+		vFault("write: %v", err)
+	}
+	f.Close()
+	defer os.Remove(p)
+	lp := vWriteFile("c11-big-log.yaml", "2021/01/01:\n  first: 1\n")
+	cmd := c11BigCmds[c.Cmd%len(c11BigCmds)]
+	r := vRunApp(vInvocation{Args: append([]string{"--today", vToday, "-d", p, "-l", lp}, cmd...)})
+	ctx.Run(1)
+	ctx.NonTrivial(true)
+	ctx.Labelf("book>=%dMiB", c.MiB)
+	if r.Panic != "" {
+		return vFailf("%v panics on a %d MiB recipe book: %s", cmd, c.MiB, vTrunc(r.Panic, 800))
+	}
+	if !r.Failed || !vIsDepthError(r.Err) {
+		return vFailf("%v on a recipe book whose last two recipes (behind %d MiB of comment lines) form a cycle: failed=%v, error %q (expected the maximum-depth error)", cmd, c.MiB, r.Failed, vTrunc(r.Err, 300))
+	}
+	return nil
+}
+
+func TestVerifC11Big(t *testing.T) {
+	space := []c11BigCase{{129, 0}}
+	if vThorough() {
+		space = []c11BigCase{{129, 0}, {129, 1}, {129, 2}, {257, 0}, {513, 0}}
+	}
+	vEnum(t, "C11", "c11.bigbook",
+		"a cyclic pair of recipes behind 129 MiB (thorough: 257 and 513 MiB) of comment lines; the resolving commands must fail with the maximum-depth error",
+		fmt.Sprintf("%d cases", len(space)), len(space), func(i int) c11BigCase { return space[i] }, checkC11Big)
 }
 
 func TestVerifC11Random(t *testing.T) {
